@@ -116,6 +116,14 @@ func execC09Inner(ctx context.Context, caseText string) string {
 	}
 	keyOf := func(e kt) int64 { return e.K }
 	cmpKt := func(a, b kt) int { return cmp.Compare(a.K, b.K) }
+	cmpKey := cmp.Compare[int64]
+	// "<variant>D": the same join under a comparator that answers scaled differences (shpanstream.Comparator is any
+	// func(a, b) int: only the sign may matter)
+	if strings.HasSuffix(variant, "D") && (strings.HasPrefix(variant, "j2") || strings.HasPrefix(variant, "jn")) {
+		variant = strings.TrimSuffix(variant, "D")
+		cmpKey = func(a, b int64) int { return int(3 * (a - b)) }
+		cmpKt = func(a, b kt) int { return int(3 * (a.K - b.K)) }
+	}
 	streams := make([]stream.Stream[kt], len(ins))
 	for i, l := range ins {
 		streams[i] = stream.Just(l...)
@@ -126,12 +134,12 @@ func execC09Inner(ctx context.Context, caseText string) string {
 			return "bad-case"
 		}
 		if variant == "j2i" {
-			s := stream.JoinSortedStreams(streams[0], streams[1], keyOf, keyOf, cmp.Compare[int64])
+			s := stream.JoinSortedStreams(streams[0], streams[1], keyOf, keyOf, cmpKey)
 			return c09Consume(ctx, s, func(t shpanstream.Tuple2[kt, kt]) string {
 				return c09Slot(&t.A) + "+" + c09Slot(&t.B)
 			})
 		}
-		s := stream.LeftJoinSortedStreams(streams[0], streams[1], keyOf, keyOf, cmp.Compare[int64])
+		s := stream.LeftJoinSortedStreams(streams[0], streams[1], keyOf, keyOf, cmpKey)
 		return c09Consume(ctx, s, func(t shpanstream.Tuple2[kt, *kt]) string {
 			return c09Slot(&t.A) + "+" + c09Slot(t.B)
 		})
@@ -371,17 +379,28 @@ func c09Break(r *Rng, s []int64) []int64 {
 }
 
 func genC09(c *Ctx) {
-	strict := c09Seqs(3, 4, 0)                // the 16 strictly increasing sequences over {0,1,2,3}
-	nondec := c09Seqs(3, c.Pick(5, 6), 1)     // non-decreasing (left input of the two-stream joins)
+	strict := c09Seqs(3, 4, 0)            // the 16 strictly increasing sequences over {0,1,2,3}
+	nondec := c09Seqs(3, c.Pick(5, 6), 1) // non-decreasing (left input of the two-stream joins)
 	nondecShort := c09Seqs(3, c.Pick(3, 4), 1)
-	anyOrder := c09Seqs(2, 3, 2)              // every sequence over {0,1,2} up to length 3 (malformed stream)
+	anyOrder := c09Seqs(2, 3, 2) // every sequence over {0,1,2} up to length 3 (malformed stream)
 
 	// ---- exhaustive small scope, sorted inputs ----
 	// two-stream joins: every non-decreasing left × every strictly increasing right
-	for _, v := range []string{"j2i", "j2l"} {
+	for _, v := range []string{"j2i", "j2l", "j2iD", "j2lD"} {
 		for _, l := range nondec {
 			for _, r := range strict {
 				c09Emit(c, v, [][]int64{l, r})
+			}
+		}
+	}
+	// the N-stream joins under a difference comparator: all pairs and triples over {0..3} (keys up to 3 apart)
+	for _, v := range []string{"jniD", "jnlD", "jnfD"} {
+		for _, a := range strict {
+			for _, b := range strict {
+				c09Emit(c, v, [][]int64{a, b})
+				for _, d := range strict {
+					c09Emit(c, v, [][]int64{a, b, d})
+				}
 			}
 		}
 	}
@@ -478,7 +497,7 @@ func genC09(c *Ctx) {
 		}
 		malformed := c.Rng.Intn(5) == 0
 		if c.Rng.Intn(3) == 0 {
-			v := []string{"j2i", "j2l"}[c.Rng.Intn(2)]
+			v := []string{"j2i", "j2l", "j2iD", "j2lD"}[c.Rng.Intn(4)]
 			l := c09RandSorted(c.Rng, c.Rng.Small(maxLen), false, step)
 			r := c09RandSorted(c.Rng, c.Rng.Small(maxLen), true, step)
 			if malformed {
@@ -492,6 +511,9 @@ func genC09(c *Ctx) {
 			continue
 		}
 		v := c09NVariants[c.Rng.Intn(len(c09NVariants))]
+		if v[0] == 'j' && c.Rng.Intn(3) == 0 {
+			v += "D"
+		}
 		k := c.Rng.Range(1, 5)
 		keys := make([][]int64, k)
 		for j := range keys {
